@@ -152,6 +152,38 @@ fn charset_table(ctx: &Ctx, rep: &mut Report) {
             }
         }
     }
+    // EVERY designator final 0x30..=0x7E into G0 and G1: only `0` (DEC special graphics)
+    // translates anything; under every other designation each of 0x20..=0x7E prints as itself
+    for fin in 0x30u32..=0x7e {
+        let f = char::from_u32(fin).unwrap();
+        for slot in [0u8, 1u8] {
+            for code in 0x20u32..=0x7e {
+                let ch = char::from_u32(code).unwrap();
+                let got = crate::engine::guarded(|| {
+                    let mut vt = build_vt(2, 1, Some(0));
+                    let _ = vt.feed_str(&format!("\x1b{}{}{}", if slot == 0 { '(' } else { ')' }, f, if slot == 0 { "\x0f" } else { "\x0e" }));
+                    let _ = vt.feed_str(&ch.to_string());
+                    // and repeated (REP goes through the translation again)
+                    let _ = vt.feed_str("\x1b[b");
+                    (vt.view()[0].cells()[0].char(), vt.view()[0].cells()[1].char())
+                });
+                let want = if f == '0' && (0x60..=0x7e).contains(&code) { GFX[(code - 0x60) as usize] } else { ch };
+                n += 1;
+                match got {
+                    Ok((a, b)) if a == want && b == want => {}
+                    Ok((a, b)) => {
+                        emit_violation(ctx, rep, "C04", json!({"part":"charset-table","code":code,"drawing":f == '0',"slot":slot,"designator":f.to_string(),
+                            "oracle":"only-special-graphics-translates","observed":format!("after ESC {} {}: {:?} printed as {:?} (repeated: {:?}), expected {:?}", if slot == 0 { '(' } else { ')' }, f, ch, a, b, want)}));
+                        return;
+                    }
+                    Err(p) => {
+                        emit_violation(ctx, rep, "C04", json!({"part":"charset-table","code":code,"drawing":false,"slot":slot,"designator":f.to_string(),"oracle":"panic","observed":p}));
+                        return;
+                    }
+                }
+            }
+        }
+    }
     // every Unicode scalar >= 0x80 that prints (i.e. >= U+00A0) passes through both
     // charsets unchanged: only 0x60-0x7e are ever remapped
     use rayon::prelude::*;
@@ -186,6 +218,48 @@ fn charset_table(ctx: &Ctx, rep: &mut Report) {
     rep.parts.push(json!({"part":"charset-table","cases":n,"all_scalars_from_U+00A0":all.len()}));
 }
 
+static SYS_CORE: LockStep = LockStep { property: "C04", probes: false, seed: None };
+
+/// the core of printing - wrap, insert, repeat, wide and zero-width characters, a region
+/// that ends above the last row - over a small alphabet, deeper
+fn alpha_core(cfg: &Cfg) -> Vec<Op> {
+    let rows = cfg.rows as u32;
+    let over: String = "abcdefghij".chars().take(cfg.cols + 1).collect();
+    vec![
+        t("a"),
+        t("漢"),
+        t("\u{301}"),
+        Op::text(&over),
+        c(Rep(Some(2))),
+        c(Sm(vec![4])),
+        c(Rm(vec![4])),
+        c(DecRst(vec![7])),
+        c(DecSet(vec![7])),
+        c(Cr),
+        c(Lf),
+        c(Bs),
+        c(Cup(Some(99), Some(99))),
+        c(Decstbm(Some(1), Some(rows.saturating_sub(1).max(2)))),
+        c(sgr1(41)),
+    ]
+}
+
+fn core_part(tier: Tier) -> Part<'static, LockStep> {
+    Part {
+        name: "print-core-deep",
+        sys: &SYS_CORE,
+        cfgs: match tier {
+            Tier::Quick => cfgs(&[(3, 3)], &[None]),
+            Tier::Thorough => cfgs(&[(3, 3), (2, 2), (4, 3)], &[None]),
+        },
+        alphabet: &alpha_core,
+        depth: tier.pick(6, 8),
+        seconds: tier.pick(20.0, 1800.0),
+        validated: true,
+        nontrivial: Some("lockstep_transitions"),
+    }
+}
+
 static SYS_SWEEP: LockStep = LockStep { property: "C04", probes: false, seed: Some(&super::sweep::fill) };
 
 fn alpha_sweep(cfg: &Cfg) -> Vec<Op> {
@@ -207,6 +281,7 @@ pub fn run(ctx: &Ctx) -> Report {
     run_part(ctx, &mut rep, &medium_part(ctx.tier));
     run_part(ctx, &mut rep, &super::sweep::sweep_part("print-large-screen-parameter-sweep", &SYS_SWEEP, &alpha_sweep, ctx.tier));
     run_part(ctx, &mut rep, &super::sweep::wide_part("print-realistic-screen-parameter-sweep", &SYS_SWEEP, &alpha_wide, ctx.tier));
+    run_part(ctx, &mut rep, &core_part(ctx.tier));
     run_part(ctx, &mut rep, &super::sweep::mode_part(&SYS_MODES, ctx.tier));
     super::sweep::mode_number_sweep(ctx, &mut rep, &SYS_MODES);
     charset_table(ctx, &mut rep);
@@ -222,6 +297,9 @@ pub fn replay(ctx: &Ctx, v: &Value) -> bool {
         return rep.violations > 0;
     }
     let tier = if v["tier"] == "thorough" { Tier::Thorough } else { Tier::Quick };
+    if v["part"] == "print-core-deep" {
+        return replay_part(ctx, &core_part(tier), v);
+    }
     if v["part"] == "print-lockstep-medium-screen" {
         return replay_part(ctx, &medium_part(tier), v);
     }
